@@ -91,8 +91,8 @@ type Runner struct {
 // Run executes one simulated CLI run in work (which holds the materialised root in
 // work/root).
 func (r *Runner) Run(work string, iv *Inv, p *Plan) (*ChildOut, error) {
-	p.Args = iv.Args()
 	p.Dir = filepath.Join(work, "root")
+	p.Args = iv.ArgsFor(p.Dir)
 	p.Stdout = filepath.Join(work, "stdout")
 	p.Stderr = filepath.Join(work, "stderr")
 	p.TracePath = filepath.Join(work, "trace")
